@@ -220,6 +220,23 @@ def check_chain(types, gset, npts, res):
                 if not same_point(row, Y.from_basic(pbq), Y.typ, 1e-8):
                     msgs.append("chain %s: getcoordinates(%s id list) row for grid %d is %s, that grid is at %s in system %d" % (types, order_name, gq, row.tolist(), Y.from_basic(pbq).tolist(), Y.cid))
                     break
+    # locations handed over as integer-typed arrays / nested lists of ints (several rows per query)
+    ipts = [[3, -4, 2], [0, 5, -1], [7, 0, 0], [-2, -2, 9]]
+    for yi, Y in enumerate(allsys):
+        for fname_, arg in (("int64 array", np.array(ipts, dtype=np.int64)), ("int32 array", np.array(ipts, dtype=np.int32)), ("list of ints", [list(p) for p in ipts]),
+                            ("float array", np.array(ipts, dtype=float)), ("Fortran float array", np.asfortranarray(np.array(ipts, dtype=float)))):
+            try:
+                with warnings.catch_warnings():
+                    warnings.simplefilter("ignore")
+                    Q = np.atleast_2d(np.asarray(n2p.getcoordinates(uset, arg, Y.cid), dtype=float))
+            except Exception as e:  # noqa
+                msgs.append("chain %s: getcoordinates(locations as %s, system %d) raised %r" % (types, fname_, Y.cid, e))
+                continue
+            for row, p in zip(Q, ipts):
+                if Q.shape != (len(ipts), 3) or not same_point(row, Y.from_basic(np.array(p, dtype=float)), Y.typ, 1e-8):
+                    msgs.append("chain %s: getcoordinates(locations as %s) gives %s for the basic point %s; in system %d (type %d) that point is %s"
+                                % (types, fname_, row.tolist(), p, Y.cid, Y.typ, Y.from_basic(np.array(p, dtype=float)).tolist()))
+                    break
     uset_snapshot = uset.values.copy()
     for gidx, X, pb, ploc in truth:
         got = uset.loc[(gidx, 1), "x":"z"].values.astype(float)
@@ -296,26 +313,45 @@ def check_chain(types, gset, npts, res):
 
 
 def check_special_rows(res):
-    """scalar point and q-set grid rows are zero; everything else unaffected"""
+    """scalar point and q-set grid rows are zero; everything else unaffected: EVERY placement of a block of 1, 2, 6 or 7
+    scalar points before / between / after four grids x every choice of the q-set grid x rectangular-only and mixed
+    (cylindrical, spherical) output systems; the table without the scalar points is the reference"""
     from pyyeti.nastran import n2p
+    import pandas as pd
 
     msgs = []
     defs, syss = chain_defs((2, 3), 0)
-    uset = n2p.addgrid(None, [1, 2, 3, 4], ["b", "q", "b", "c"], [0, 0, defs[0], defs[1]], [[1.0, 2, 3], [0.0, 0, 0], [2.0, 40, 1], [3.0, 60, 120]],
-                       [0, 0, defs[0], defs[1]], {})
-    sp = n2p.make_uset([[99, 0]], "q")
-    import pandas as pd
-
-    u2 = pd.concat([uset.iloc[:6], sp, uset.iloc[6:]])
-    rb = n2p.rbgeom_uset(u2, np.array([[0.0, 0, 0]]))
-    full = n2p.rbgeom_uset(uset, np.array([[0.0, 0, 0]]))
-    res.ev("special/spoint+qgrid")
-    if rb.shape[0] != 25 or np.abs(rb[6]).max() != 0:
-        msgs.append("scalar point row of rbgeom_uset is not zero")
-    if np.abs(rb[7:13]).max() != 0 or np.abs(full[6:12]).max() != 0:
-        msgs.append("q-set grid rows of rbgeom_uset are not zero")
-    if not np.array_equal(np.delete(rb, 6, axis=0), full):
-        msgs.append("inserting a scalar point changed the other rows of rbgeom_uset")
+    xyz = [[1.0, 2, 3], [0.5, -1.0, 2.0], [2.0, 40, 1], [3.0, 60, 120]]
+    for cmode in ("mixed", "rect"):
+        cs = [0, 0, defs[0], defs[1]] if cmode == "mixed" else [0, 0, 0, 0]
+        locs = xyz if cmode == "mixed" else [[1.0, 2, 3], [0.5, -1.0, 2.0], [2.0, 4.0, 1.0], [3.0, 6.0, -2.0]]
+        for qg in range(4):
+            sets = ["q" if g == qg else "bcbc"[g] for g in range(4)]
+            try:
+                uset = n2p.addgrid(None, [1, 2, 3, 4], sets, cs, locs, cs, {})
+                full = n2p.rbgeom_uset(uset, np.array([[0.0, 0, 0]]))
+            except Exception as e:  # noqa
+                msgs.append("rbgeom_uset on four grids (q-set grid #%d, %s systems) raised %r" % (qg, cmode, e))
+                continue
+            if np.abs(full[6 * qg : 6 * qg + 6]).max() != 0:
+                msgs.append("q-set grid rows of rbgeom_uset are not zero (grid #%d, %s systems)" % (qg, cmode))
+            for nsp, pos in itertools.product((1, 2, 6, 7), range(5)):
+                sp = n2p.make_uset([[900 + k, 0] for k in range(nsp)], "q")
+                u2 = pd.concat([uset.iloc[: 6 * pos], sp, uset.iloc[6 * pos :]])
+                res.ev("special/%s/q%d/nsp%d/pos%d" % (cmode, qg, nsp, pos))
+                tag = "%d scalar point(s) before grid #%d, q-set grid #%d, %s systems" % (nsp, pos, qg, cmode)
+                try:
+                    rb = n2p.rbgeom_uset(u2, np.array([[0.0, 0, 0]]))
+                except Exception as e:  # noqa
+                    msgs.append("rbgeom_uset raised %r (%s)" % (e, tag))
+                    continue
+                rows = list(range(6 * pos, 6 * pos + nsp))
+                if rb.shape[0] != 24 + nsp or np.abs(rb[rows]).max() != 0:
+                    msgs.append("scalar point rows of rbgeom_uset are not zero (%s)" % tag)
+                elif not np.array_equal(np.delete(rb, rows, axis=0), full):
+                    msgs.append("inserting scalar points changed the other rows of rbgeom_uset (%s)" % tag)
+        if len(msgs) > 8:
+            break
     return msgs
 
 
